@@ -5,6 +5,7 @@
    The model (Model/Session.v) is tied to the real provider by harness/drv_C02.py on every run. *)
 From Coq Require Import String ZArith List.
 From Verif Require Import Lib.Base Lib.PyStr Model.Session Model.SessionCheck Proofs.Session_proofs Proofs.C02_proofs.
+From Verif Require Gen.Src_token Proofs.Src_refine.
 Import ListNotations.
 Open Scope string_scope.
 
@@ -70,3 +71,16 @@ Example C02_expired_not_redeemable :
   /\ redeems 0 cf s1 [TokenParse c1 (TRef 0) (Some (redirect_of c1)); Tick 301; Process 0 None] = 0%nat
   /\ redeems 0 cf s1 [Tick 300; TokenParse c1 (TRef 0) (Some (redirect_of c1)); Process 0 None] = 1%nat.
 Proof. vm_compute. repeat split; reflexivity. Qed.
+
+(* TIE BY TRANSLATION: Item.is_active / max_usage_reached / supports_minting as they read in /repo/src NOW
+   (coq/Gen/Src_token.v is regenerated from the source on every run) compute the model's tok_active /
+   supports_minting.  Changing a comparison, dropping the revoked test or the usage limit in the source breaks
+   these statements. *)
+Theorem C02_is_active_is_source : forall t now clock,
+  now <> 0%Z -> Src_token.Item_is_active_src (Src_refine.inject_tok t) (VInt now) (VInt clock) = Ok (VBool (tok_active now t)).
+Proof. exact Src_refine.is_active_refines. Qed.
+Print Assumptions C02_is_active_is_source.
+Theorem C02_supports_minting_is_source : forall t c clock,
+  Src_token.SessionToken_supports_minting_src (Src_refine.inject_tok t) (VStr (Src_refine.cls_name c)) clock = Ok (VBool (supports_minting t c)).
+Proof. exact Src_refine.supports_minting_refines. Qed.
+Print Assumptions C02_supports_minting_is_source.
